@@ -62,7 +62,7 @@ def nest(t):
 WIDTH_KINDS = ["stmt", "decl", "fhead", "proto", "global", "define", "include", "ctrl", "comment_line",
                "comment_eol_global", "comment_block", "block_first", "block_interior", "block_last",
                "block_interior_tab", "stmt_string_tail", "stmt_string_tab", "comment_line_tab", "define_string_tab",
-               "global_string"]
+               "global_string", "stmt_digraph", "stmt_trigraph", "global_digraph", "ctrl_trigraph"]
 
 
 def width_case(kind, n, t, pos, final_nl, r):
@@ -104,6 +104,26 @@ def width_case(kind, n, t, pos, final_nl, r):
         if t:
             return None
         line = pad_to('static char\t*g_s = "', r.choice("stuv"), '";', n)
+    elif kind == "stmt_digraph":
+        # alternative spellings take the columns their characters take
+        if t < 1:
+            return None
+        line = pad_to(tabs + 'ft_g(v<:0:>, <%0%>, "', r.choice("xabc"), '");', n)
+        where = "body"
+    elif kind == "stmt_trigraph":
+        if t < 1:
+            return None
+        line = pad_to(tabs + 'ft_g(v??(0??) ??! 1, "', r.choice("xabc"), '");', n)
+        where = "body"
+    elif kind == "ctrl_trigraph":
+        if t < 1:
+            return None
+        line = pad_to(tabs + "if (v??(0??) ??' ft_", "c", "(a))", n)
+        where = "ctrl"
+    elif kind == "global_digraph":
+        if t:
+            return None
+        line = pad_to('static char\tg_s<::> = "', r.choice("stuv"), '";', n)
     elif kind == "decl":
         if t != 1:
             return None
@@ -287,7 +307,11 @@ def lines_case(n, r, seedstr):
     return "test.c", src, close_line, {"neighbours": [nb, na], "decl_lines": ndecl}
 
 
-def funcs_case(n, r):
+BETWEEN = [["#ifdef X", "#endif"], ["#define Y 1"], ["#pragma once"], ["// c"], ["/* c */"], [""], ["/*", "** c", "*/"],
+           ["#ifndef X", "# define X", "#endif"], ["// a", "// b"]]
+
+
+def funcs_case(n, r, between=False):
     lines = []
     heads = []
     for k in range(n):
@@ -295,7 +319,11 @@ def funcs_case(n, r):
             lines.append("")
         static = "static " if r.random() < 0.4 else ""
         heads.append(len(lines) + 1)
-        lines += ["%sint\tft_f%d(int a)" % (static, k), "{"]
+        lines += ["%sint\tft_f%d(int a)" % (static, k)]
+        if between and r.random() < 0.5:
+            # something between the declarator and the body: still one function definition
+            lines += r.choice(BETWEEN)
+        lines += ["{"]
         for _ in range(r.randint(1, 3)):
             lines.append("\ta = a + %d;" % r.randint(1, 9))
         lines += ["\treturn (a);", "}"]
@@ -381,6 +409,8 @@ def all_cases(spec):
         for n in range(2, 12):
             nm, src, heads = funcs_case(n, r)
             yield ("funcs", "file", n, {}, nm, src, heads)
+            nm, src, heads = funcs_case(n, r, between=True)
+            yield ("funcs", "file/lines_between_head_and_body", n, {}, nm, src, heads)
         for n in range(1, 11):
             for proto, ft in ((False, "c"), (True, "c"), (True, "h")):
                 for shape in ([None] if rep else HEAD_SHAPES[1:]):
